@@ -97,6 +97,16 @@ def run_tlv(res, work, tier, seed):
             pairs.sort(key=lambda p: -p[0])
         runs.append({"run": rid, "cfg": {"kind": "enc", "ctor": rng.choice(["new", "slice"]), "sink": "iovec", "nested": False,
                                          "pairs": pairs, "probe": probe}, "ops": []})
+    # wide tags: numeric order vs byte-wise (little-endian) order of the tag words
+    WIDE = [1, 255, 256, 257, 65535, 65536, 0x1000000, 2 ** 31 - 1]
+    wide_lists = [list(t) for n in (1, 2) for t in itertools.product(WIDE, repeat=n)]
+    wide_lists += [[rng.choice(WIDE) for _ in range(rng.choice([3, 4, 5]))] for _ in range(60 if tier == "quick" else 2000)]
+    for tags in wide_lists:
+        for ctor in ("new", "slice", "sorted"):
+            rid += 1
+            pairs = [[t, ["b", [i + 1, t % 251]]] for i, t in enumerate(tags)]
+            runs.append({"run": rid, "cfg": {"kind": "enc", "ctor": ctor, "sink": sinks[rid % 3], "nested": False,
+                                             "pairs": pairs, "probe": probe}, "ops": []})
     n_enc = rid
     # C11 size limits: values that only report a length
     for n in range(1, 5):
